@@ -65,6 +65,7 @@ class UnitResult:
         self.trusted = []
         self.labels = {}          # function -> [labels]
         self.probe = None
+        self.dropped_optional = []
         self.cmd = None
         self.wall = 0.0
         self.raw = ""
@@ -285,6 +286,25 @@ def run_unit(unit, repo=REPO, tier="quick", probe=True, rlimit=None, keep_log=Tr
         # the vacuity probe is an independent Verus run: start it concurrently
         probe_future = _PROBE_POOL.submit(run_probe, spec, repo, bdir, gen_name, rl)
     r = run_verus(out, logdir=logdir, rlimit=rl)
+    # Optional spec lines (`//?opt`): an invariant that names a local variable which a later edit
+    # of the code removed is dropped (and recorded) instead of making the whole unit undecided.
+    res.dropped_optional = []
+    for _attempt in range(4):
+        bad = set()
+        for d in r["diags"]:
+            if d.get("level") == "error" and (d.get("code") or {}).get("code") in ("E0425", "E0609"):
+                for sp in d.get("spans", []):
+                    ln = sp.get("line_start", 0)
+                    if 1 <= ln <= len(gen_lines) and "//?opt" in gen_lines[ln - 1]:
+                        bad.add(ln)
+        if not bad:
+            break
+        for ln in bad:
+            res.dropped_optional.append(gen_lines[ln - 1].strip())
+            gen_lines[ln - 1] = "// (optional spec line dropped: names a variable that no longer exists)"
+        with open(out, "w") as f:
+            f.write("\n".join(gen_lines))
+        r = run_verus(out, logdir=logdir, rlimit=rl)
     res.cmd = r["cmd"]
     js = r["json"]
     if js is None:
